@@ -60,6 +60,7 @@ pub fn all_probes<H: HB>(prop: &str, universe: &[u32]) -> Vec<Box<dyn Probe<H>>>
         "C13" => vec![Box::new(IterPrograms { which: vec![It::Iter, It::IterRef, It::IntoIter, It::Drain, It::Sorted], extra_len: 2, sorted_vecs: false, adaptors: true, full_upto: 12 })],
         "C16" => vec![Box::new(EmptiedLikeFresh { universe: universe.to_vec(), prios })],
         "C11" | "C03" => vec![Box::new(OfferedVsStored { universe: universe.to_vec() })],
+        "C07" => vec![Box::new(TaggedBulk)],
         "C05" => vec![Box::new(ZeroCost)],
         "C08" => vec![Box::new(BulkMutationPrograms { universe: universe.to_vec(), prios, all_tables: false })],
         "C08-late-write" => vec![Box::new(LateWrite { universe: universe.to_vec(), prios: prios.clone() })],
@@ -528,6 +529,44 @@ fn check_adaptors(out: AdOut, n: usize, cases: &mut u64) -> Result<(), String> {
 
 /// By-value consumers after a prefix of plain calls: `last()` must be the last remaining element of
 /// the forward order (None when exhausted), `count()` the number of remaining elements.
+/// Prefixes after which the by-value consumers run: a calls of next then b of next_back (and the
+/// other way round) for all a + b <= n + 1 on small queues, a structured subset on larger ones.
+pub fn consumer_prefixes(n: usize, back: bool) -> Vec<Vec<St>> {
+    let mut out: Vec<Vec<St>> = vec![];
+    let cands: Vec<usize> = if n <= 10 { (0..=n + 1).collect() } else { vec![0, 1, 2, n / 2, n - 2, n - 1, n, n + 1] };
+    for &a in &cands {
+        for &b in &cands {
+            if a + b > n + 1 || (b > 0 && !back) {
+                continue;
+            }
+            let mut p = vec![St::Next; a];
+            p.extend(vec![St::Back; b]);
+            out.push(p.clone());
+            if a > 0 && b > 0 {
+                let mut r = vec![St::Back; b];
+                r.extend(vec![St::Next; a]);
+                out.push(r);
+                if a + b <= 4 {
+                    // interleaved
+                    let mut x = vec![];
+                    for i in 0..a.max(b) {
+                        if i < a {
+                            x.push(St::Next);
+                        }
+                        if i < b {
+                            x.push(St::Back);
+                        }
+                    }
+                    out.push(x);
+                }
+            }
+        }
+    }
+    out.sort_by_key(|p| p.iter().map(|s| if *s == St::Next { 0u8 } else { 1 }).collect::<Vec<_>>());
+    out.dedup();
+    out
+}
+
 fn check_consumers<'a, T>(
     what: &str,
     mk: &mut dyn FnMut() -> Box<dyn DynIter<T> + 'a>,
@@ -537,21 +576,14 @@ fn check_consumers<'a, T>(
 ) -> Result<u64, String> {
     let n = fwd.len();
     let mut cases = 0;
-    let mut prefixes: Vec<Vec<St>> = vec![];
-    for j in 0..=(n + 1) {
-        prefixes.push(vec![St::Next; j]);
-        if back && j > 0 {
-            prefixes.push(vec![St::Back; j]);
-            let mut mixed = vec![St::Next; j];
-            mixed[j - 1] = St::Back;
-            prefixes.push(mixed);
-        }
-    }
+    let prefixes = consumer_prefixes(n, back);
     for pre in &prefixes {
-        let nf = pre.iter().filter(|s| **s == St::Next).count().min(n);
-        let nb = pre.iter().filter(|s| **s == St::Back).count().min(n - nf);
+        // the prefix never over-consumes one end at the expense of the other: a + b <= n + 1
+        let a = pre.iter().filter(|s| **s == St::Next).count();
+        let b = pre.iter().filter(|s| **s == St::Back).count();
+        let (nf, nb) = if a + b <= n { (a, b) } else if pre.first() == Some(&St::Back) { (n - b.min(n), b.min(n)) } else { (a.min(n), n - a.min(n)) };
         let rest: &[u32] = &fwd[nf..n - nb];
-        for which in 0..2 {
+        for which in 0..6 {
             cases += 1;
             let mut it = mk();
             for st in pre {
@@ -564,15 +596,60 @@ fn check_consumers<'a, T>(
                     }
                 }
             }
-            if which == 0 {
-                let got = it.last_().map(|t| key_of(&t));
-                if got != rest.last().copied() {
-                    return Err(format!("{what}: after {pre:?}, last() yields item {got:?}; the last remaining element of the forward order {fwd:?} is {:?}", rest.last()));
+            match which {
+                0 => {
+                    let got = it.last_().map(|t| key_of(&t));
+                    if got != rest.last().copied() {
+                        return Err(format!("{what}: after {pre:?}, last() yields item {got:?}; the last remaining element of the forward order {fwd:?} is {:?}", rest.last()));
+                    }
                 }
-            } else {
-                let got = it.count_();
-                if got != rest.len() {
-                    return Err(format!("{what}: after {pre:?}, count() = {got} but {} elements remain", rest.len()));
+                1 => {
+                    let got = it.count_();
+                    if got != rest.len() {
+                        return Err(format!("{what}: after {pre:?}, count() = {got} but {} elements remain", rest.len()));
+                    }
+                }
+                2 => {
+                    let mut got = vec![];
+                    it.for_each_(&mut |t| got.push(key_of(&t)));
+                    if got != rest {
+                        return Err(format!("{what}: after {pre:?}, for_each visits items {got:?}; the remaining elements of the forward order {fwd:?} are {rest:?}"));
+                    }
+                }
+                3 => {
+                    if let Some(got) = it.rev_all_() {
+                        let got: Vec<u32> = got.iter().map(|t| key_of(t)).collect();
+                        let want: Vec<u32> = rest.iter().rev().copied().collect();
+                        if got != want {
+                            return Err(format!("{what}: after {pre:?}, rev().for_each visits items {got:?}; the remaining elements of the forward order {fwd:?}, reversed, are {want:?}"));
+                        }
+                    }
+                }
+                4 => {
+                    // find the last remaining element, then the iterator must be exhausted
+                    let target = rest.last().copied();
+                    let got = it.find_(&mut |t| Some(key_of(t)) == target).map(|t| key_of(&t));
+                    if got != target {
+                        return Err(format!("{what}: after {pre:?}, find(last remaining) yields {got:?} instead of {target:?}"));
+                    }
+                    if let Some(t) = it.nx() {
+                        return Err(format!("{what}: after {pre:?} and a find that consumed everything, next() still yields item {}", key_of(&t)));
+                    }
+                }
+                _ => {
+                    let target = rest.first().copied();
+                    match it.rfind_(&mut |t| Some(key_of(t)) == target) {
+                        None => {}
+                        Some(got) => {
+                            let got = got.map(|t| key_of(&t));
+                            if got != target {
+                                return Err(format!("{what}: after {pre:?}, rfind(first remaining) yields {got:?} instead of {target:?}"));
+                            }
+                            if let Some(t) = it.nx() {
+                                return Err(format!("{what}: after {pre:?} and an rfind that consumed everything, next() still yields item {}", key_of(&t)));
+                            }
+                        }
+                    }
                 }
             }
         }
@@ -611,21 +688,13 @@ impl IterMutPrograms {
         }
         if !self.lite {
             // by-value consumers: each needs its own clone to borrow from
-            let pres: Vec<Vec<St>> = {
-                let mut v = vec![];
-                for j in 0..=(n + 1) {
-                    v.push(vec![St::Next; j]);
-                    if back && j > 0 {
-                        v.push(vec![St::Back; j]);
-                    }
-                }
-                v
-            };
+            let pres = consumer_prefixes(n, back);
             for pre in &pres {
-                let nf = pre.iter().filter(|s| **s == St::Next).count().min(n);
-                let nb = pre.iter().filter(|s| **s == St::Back).count().min(n - nf);
+                let a = pre.iter().filter(|s| **s == St::Next).count();
+                let b = pre.iter().filter(|s| **s == St::Back).count();
+                let (nf, nb) = if a + b <= n { (a, b) } else if pre.first() == Some(&St::Back) { (n - b.min(n), b.min(n)) } else { (a.min(n), n - a.min(n)) };
                 let rest: &[u32] = &fwd[nf..n - nb];
-                for which in 0..2 {
+                for which in 0..4 {
                     cases += 1;
                     let mut c = q.clone();
                     let mut it = c.q_iter_mut();
@@ -641,10 +710,22 @@ impl IterMutPrograms {
                         if got != rest.last().copied() {
                             return Err(format!("iter_mut(): after {pre:?}, last() yields item {got:?}; the last remaining element of the forward order {fwd:?} is {:?}", rest.last()));
                         }
-                    } else {
+                    } else if which == 1 {
                         let got = it.count_();
                         if got != rest.len() {
                             return Err(format!("iter_mut(): after {pre:?}, count() = {got} but {} elements remain", rest.len()));
+                        }
+                    } else if which == 2 {
+                        let mut got = vec![];
+                        it.for_each_(&mut |t| got.push(t.0.key));
+                        if got != rest {
+                            return Err(format!("iter_mut(): after {pre:?}, for_each visits items {got:?}; the remaining elements of the forward order {fwd:?} are {rest:?}"));
+                        }
+                    } else if let Some(got) = it.rev_all_() {
+                        let got: Vec<u32> = got.iter().map(|t| t.0.key).collect();
+                        let want: Vec<u32> = rest.iter().rev().copied().collect();
+                        if got != want {
+                            return Err(format!("iter_mut(): after {pre:?}, rev().for_each visits items {got:?}; the remaining elements of the forward order {fwd:?}, reversed, are {want:?}"));
                         }
                     }
                 }
@@ -1202,6 +1283,124 @@ impl<H: HB> Probe<H> for OfferedVsStored {
     }
     fn on_state(&self, q: &AnyQ<H>, m: &Model, _unordered: bool) -> Result<u64, String> {
         with_q!(q, x => self.run(x, m))
+    }
+}
+
+/// C07 with priorities whose Ord ignores part of the value (the tag): WHICH of several priorities that
+/// rank equal a bulk operation keeps is specified (extend / FromIterator: the last, From<Vec>: the
+/// first, append: the receiver's unless the other queue was longer) and must not depend on the
+/// size_hint, i.e. on the internal strategy. Stored priorities of explored states carry tag 0.
+pub struct TaggedBulk;
+
+impl TaggedBulk {
+    pub fn run<Q: QueueLike>(q: &Q, m: &Model) -> Result<u64, String> {
+        let mut cases = 0;
+        let tag_of = |c: &Q, k: u32| c.q_get_priority_b(&Key(k)).map(|p| (p.v, p.tag));
+        let n = m.len();
+        let fresh = m.keys().max().map_or(0, |k| k + 1);
+        let mut targets: Vec<(u32, i32, bool)> = vec![];
+        let keys: Vec<u32> = m.keys().copied().collect();
+        let picked: Vec<u32> = if n <= 4 { keys.clone() } else { vec![keys[0], keys[n / 2], keys[n - 1]] };
+        for k in picked {
+            targets.push((k, m[&k].1, true));
+        }
+        targets.push((fresh, m.values().map(|v| v.1).max().unwrap_or(0), false));
+        for &(k, v, present) in &targets {
+            // the same item offered twice (tags 7 then 8) with the rank it already has, surrounded by
+            // enough filler to make a long batch where the hint says so
+            for filler in [0usize, 20] {
+                let mut seq: Vec<(u32, i32, u8)> = vec![(k, v, 7)];
+                for i in 0..filler {
+                    seq.push((fresh + 1 + i as u32, v, 1));
+                }
+                seq.push((k, v, 8));
+                let len = seq.len();
+                for h in crate::post::hint_menu(len, true) {
+                    cases += 1;
+                    let mut c = q.clone();
+                    c.q_extend(Hinted::new(seq.iter().map(|&(k, v, t)| (Item::new(k, 0), Prio::tagged(v, t))).collect(), h.lo, h.hi));
+                    let now = tag_of(&c, k);
+                    if now != Some((v, 8)) {
+                        return Err(format!("extend with size_hint {h:?} of a batch of {len} pairs offering item {k} ({}) twice with priorities that rank equal (tags 7 then 8): the queue holds {now:?}, extend must keep the LAST one", if present { "stored with an equal-ranking priority, tag 0" } else { "not stored before" }));
+                    }
+                    let s = c.snap();
+                    check_tables(&s)?;
+                    check_order(&s, Q::DOUBLE).map_err(|e| format!("after a tagged extend: {e}"))?;
+                }
+                // one offer only
+                for h in crate::post::hint_menu(1, false) {
+                    cases += 1;
+                    let mut c = q.clone();
+                    c.q_extend(Hinted::new(vec![(Item::new(k, 0), Prio::tagged(v, 7))], h.lo, h.hi));
+                    let now = tag_of(&c, k);
+                    if now != Some((v, 7)) {
+                        return Err(format!("extend with size_hint {h:?} offering item {k} once with a priority that ranks equal to the stored one: the queue holds {now:?}, expected the offered value (tag 7)"));
+                    }
+                }
+            }
+            // constructors from the same batch
+            let batch: Vec<(u32, i32, u8)> = {
+                let mut b: Vec<(u32, i32, u8)> = m.iter().map(|(&kk, &(_, p))| (kk, p, 0)).collect();
+                b.push((k, v, 7));
+                b.push((fresh + 1, v, 1));
+                b.push((k, v, 8));
+                b
+            };
+            let mk_batch = || batch.iter().map(|&(k, v, t)| (Item::new(k, 0), Prio::tagged(v, t))).collect::<Vec<_>>();
+            for h in crate::post::hint_menu(batch.len(), true) {
+                cases += 1;
+                let c = Q::q_from_iter(Hinted::new(mk_batch(), h.lo, h.hi));
+                let now = tag_of(&c, k);
+                if now != Some((v, 8)) {
+                    return Err(format!("FromIterator with size_hint {h:?}: item {k} offered with equal-ranking priorities, the last tagged 8: the queue holds {now:?}, FromIterator must keep the LAST one"));
+                }
+            }
+            cases += 1;
+            let c = Q::q_from_vec(mk_batch());
+            let want = if present { (v, 0) } else { (v, 7) };
+            let now = tag_of(&c, k);
+            if now != Some(want) {
+                return Err(format!("From<Vec>: item {k} given several equal-ranking priorities: the queue holds {now:?}, From<Vec> must keep the FIRST one {want:?}"));
+            }
+        }
+        // append: a shorter / equally long / longer queue clashing on one stored item
+        if n > 0 {
+            for &k in &[keys[0], keys[n - 1]] {
+                let v = m[&k].1;
+                for extra in [0usize, n.saturating_sub(1), n, n + 1] {
+                    cases += 1;
+                    let mut c = q.clone();
+                    let mut o = Q::q_new();
+                    o.q_push(Item::new(k, 0), Prio::tagged(v, 9));
+                    for i in 0..extra {
+                        o.q_push(Item::new(fresh + 10 + i as u32, 0), Prio::tagged(v, 1));
+                    }
+                    let olen = o.q_len();
+                    c.q_append(&mut o);
+                    let now = tag_of(&c, k);
+                    let ok = if olen > n { now == Some((v, 0)) || now == Some((v, 9)) } else { now == Some((v, 0)) };
+                    if !ok {
+                        return Err(format!("append of a queue of {olen} elements to one of {n}, clashing on item {k} with an equal-ranking priority (tag 9): the receiver holds {now:?}; its own value (tag 0) must stay unless the other queue was longer"));
+                    }
+                    if c.q_len() != n + extra || o.q_len() != 0 {
+                        return Err(format!("append of {olen} elements (one clash) to {n}: lengths {} and {}", c.q_len(), o.q_len()));
+                    }
+                }
+            }
+        }
+        Ok(cases)
+    }
+}
+
+impl<H: HB> Probe<H> for TaggedBulk {
+    fn name(&self) -> String {
+        "tagged-bulk".into()
+    }
+    fn on_state(&self, q: &AnyQ<H>, m: &Model, unordered: bool) -> Result<u64, String> {
+        if unordered {
+            return Ok(0);
+        }
+        with_q!(q, x => TaggedBulk::run(x, m))
     }
 }
 
